@@ -68,10 +68,57 @@ impl Cx<'_> {
     }
 }
 
+/// For the three types with hand-written `Hash` / `Ord` next to their hand-written `PartialEq`
+/// (Ipv4Options inside Ipv4Header, TcpOptions inside TcpHeader, ArpPacket): values that are equal are
+/// interchangeable - same hash, `cmp` says `Equal` - whatever history their buffers have.
+#[allow(deprecated)]
+fn interchangeable(a: &Val, b: &Val) -> Option<String> {
+    use std::hash::{Hash, Hasher};
+    fn h<T: Hash>(t: &T) -> u64 {
+        let mut s = std::collections::hash_map::DefaultHasher::new();
+        t.hash(&mut s);
+        s.finish()
+    }
+    match (a, b) {
+        (Val::Ipv4(x), Val::Ipv4(y)) => {
+            if h(x) != h(y) || h(&x.options) != h(&y.options) {
+                return Some("equal Ipv4Header values hash differently".into());
+            }
+            if x.cmp(y) != std::cmp::Ordering::Equal || x.options.partial_cmp(&y.options) != Some(std::cmp::Ordering::Equal) {
+                return Some("equal Ipv4Header values do not compare as Equal".into());
+            }
+            if x.options() != &x.options[..] {
+                return Some("Ipv4Header::options() differs from the options field".into());
+            }
+        }
+        (Val::Tcp(x), Val::Tcp(y)) => {
+            if h(x) != h(y) || h(&x.options) != h(&y.options) {
+                return Some("equal TcpHeader values hash differently".into());
+            }
+            if x.cmp(y) != std::cmp::Ordering::Equal || x.options.partial_cmp(&y.options) != Some(std::cmp::Ordering::Equal) {
+                return Some("equal TcpHeader values do not compare as Equal".into());
+            }
+            if x.options_len() != x.options.len() || x.options() != x.options.as_slice() {
+                return Some("TcpHeader::options_len()/options() differ from the options field".into());
+            }
+        }
+        (Val::Arp(x), Val::Arp(y)) => {
+            if h(x) != h(y) {
+                return Some("equal ArpPacket values hash differently".into());
+            }
+        }
+        _ => {}
+    }
+    None
+}
+
 /// value == decoded and the decoded value encodes to the reference again
 fn same(cx: &Cx, ctx: &mut Ctx, entry: &str, val: &Val, dec: &Val, e: &[u8], wr: &[u8]) -> Result<(), Failure> {
     if dec != val {
         return cx.fail(ctx, entry, "decoded!=value", format!("decoded {:?} from {} but the value was {:?}", dec, hex(&e[..e.len().min(64)]), val));
+    }
+    if let Some(m) = interchangeable(val, dec) {
+        return cx.fail(ctx, entry, "equal-values-are-interchangeable", format!("{}: value {:?} / decoded {:?}", m, val, dec));
     }
     if let Some(r) = dec.encode() {
         match r {
